@@ -312,6 +312,7 @@ def shapeName : Shape → String
   | .originField => "originField" | .rfc2822 => "rfc2822" | .dateYmd => "dateYmd" | .envMap => "envMap" | .vcsScan => "vcsScan" | .bugsScan => "bugsScan" | .headerFix => "headerFix"
   | .firstPara => "firstPara" | .filterParaWithout excl => s!"filterParaWithout:{String.ofList excl}"
   | .findPara => "findPara" | .filterPara => "filterPara" | .addPara => "addPara"
+  | .filterParaTail => "filterParaTail" | .filterParaWithoutTail excl => s!"filterParaWithoutTail:{String.ofList excl}"
   | .composite => "composite" | .derived => "derived" | .opaque => "opaque"
 
 def absentName : Absent → String
